@@ -78,9 +78,10 @@ package unixsocket
 //@   assigns nothing
 //@   ensures result != nil && fresh(result) && result.UnixConn == conn && len(result.recvBuff) == 4096 && len(result.sendBuff) == 4096
 
-//@ func pkg/unixsocket.NewSocket props C19
+//@ func pkg/unixsocket.NewSocket props C06 C19
 //@   arith int
 //@   assigns FD.cloexec
+//@   ensures @C06 FD.cloexec[fd]
 //@   ensures result.1 == nil ==> result.0 != nil && result.0.UnixConn != nil && len(result.0.recvBuff) == 4096
 
 //@ func pkg/unixsocket.NewSocketPair props C19
